@@ -266,6 +266,16 @@ func (b *Buffer) fromBytes(data []byte) *goja.Object {
 }
 
 func (b *Buffer) _from(args ...goja.Value) *goja.Object {
+	return b.fromDepth(0, args...)
+}
+
+// maxFromDepth bounds how many times Buffer.from() follows valueOf()/Symbol.toPrimitive.
+const maxFromDepth = 16
+
+func (b *Buffer) fromDepth(depth int, args ...goja.Value) *goja.Object {
+	if depth > maxFromDepth {
+		panic(errors.NewTypeError(b.r, errors.ErrCodeInvalidArgType, "The first argument must be of type string or an instance of Buffer, ArrayBuffer, or Array or an Array-like Object."))
+	}
 	if len(args) == 0 {
 		panic(errors.NewTypeError(b.r, errors.ErrCodeInvalidArgType, "The first argument must be of type string or an instance of Buffer, ArrayBuffer, or Array or an Array-like Object. Received undefined"))
 	}
@@ -298,7 +308,7 @@ func (b *Buffer) _from(args ...goja.Value) *goja.Object {
 					}
 					if valueOf != o {
 						args[0] = valueOf
-						return b._from(args...)
+						return b.fromDepth(depth+1, args...)
 					}
 				}
 
@@ -309,7 +319,7 @@ func (b *Buffer) _from(args ...goja.Value) *goja.Object {
 							panic(err)
 						}
 						args[0] = str
-						return b._from(args...)
+						return b.fromDepth(depth+1, args...)
 					}
 				}
 			}
